@@ -329,7 +329,8 @@ impl<T: Qcow2IoOps> Qcow2Dev<T> {
                     match l2_e.compressed_range(info.cluster_bits() as u32) {
                         Some((off, length)) => {
                             let start = info.cluster_round_down(off);
-                            let end = info.cluster_round_down(off + (length as u64));
+                            // cluster of the last byte, not of the byte behind it
+                            let end = info.cluster_round_down(off + (length as u64) - 1);
 
                             let cnt = (((end - start) as usize) >> info.cluster_bits()) + 1;
                             self.free_clusters(start, cnt).await?
